@@ -21,6 +21,8 @@ import (
 	"fmt"
 	"math"
 	"reflect"
+	"regexp"
+	"runtime/debug"
 	"strings"
 	"sync"
 	"testing"
@@ -39,6 +41,7 @@ func TestMain(m *testing.M) { evid.Main(m, "C08") }
 const (
 	findSignExt = "C08-int32-result-sign-extended"
 	findSNaN    = "C08-reflect-f32-snan-quieted"
+	findTail7   = "C08-tailcall-import-7th-int-arg-clobbered"
 )
 
 // ---------------------------------------------------------------- case form
@@ -60,6 +63,9 @@ type Case struct {
 	PGo    string `json:"params_go"`
 	RGo    string `json:"results_go"`
 	Vecs   []Vec  `json:"vectors"`
+	// NoTail leaves out the echo_tail form (set by the generator for the class of a reproduced
+	// known finding).
+	NoTail bool `json:"no_tail,omitempty"`
 }
 
 var styles = []string{"reflect", "reflect-ctx", "reflect-mod", "gofunc", "gomodfunc"}
@@ -195,6 +201,14 @@ func buildGuest(c Case) []byte {
 	}
 	m.ExportFunc("echo", m.AddFunc(P, R, nil, params(wasmenc.NewB()).Call(host).Bytes()))
 	m.ExportFunc("id", m.AddFunc(P, P, nil, params(wasmenc.NewB()).Bytes()))
+	// the same forwarding through call_indirect and through a tail call. (Re-exporting the
+	// imported host function and calling it from Go is not generated: HostModuleBuilder documents
+	// that host functions need an importing module and must not be called directly; on the
+	// compiler ExportedFunction of such a re-export panics with an index error.)
+	m.Tables = [][]byte{wasmenc.TableType(wasmenc.FuncRef, 1, 1)}
+	m.Elems = [][]byte{wasmenc.ActiveElemFuncs(0, []uint32{host})}
+	m.ExportFunc("echo_ind", m.AddFunc(P, R, nil, params(wasmenc.NewB()).I32Const(0).CallIndirect(m.AddType(P, R), 0).Bytes()))
+	m.ExportFunc("echo_tail", m.AddFunc(P, R, nil, params(wasmenc.NewB()).ReturnCall(host).Bytes()))
 	for vi, v := range c.Vecs {
 		// kcall_v: () -> i64, locals = results
 		b := wasmenc.NewB()
@@ -505,7 +519,7 @@ func runCase(c Case) (f *failure, st runStats) {
 	normalise(&c)
 	defer func() {
 		if r := recover(); r != nil {
-			f = failf("%s: panic escaped wazero's API: %v", describe(c), r)
+			f = failf("%s: panic escaped wazero's API: %v\n%s", describe(c), r, trimStack(debug.Stack()))
 		}
 	}()
 	rt := wazero.NewRuntimeWithConfig(bg, wz.Config(c.Engine))
@@ -610,17 +624,34 @@ func runCase(c Case) (f *failure, st runStats) {
 			if f := sameRes(fmt.Sprintf("vector %d: id via %s", vi, form(ws)), c.P, res, v.Args); f != nil {
 				return f, st
 			}
-			// echo: Go -> guest -> host -> guest -> Go, without and with a callback into id
-			for cb := 0; cb <= 2; cb++ {
+			// echo: Go -> guest -> host -> guest -> Go, without and with a callback into id;
+			// then the call_indirect, tail-call and direct re-export forms
+			for _, variant := range []struct {
+				fn string
+				cb int
+			}{{"echo", 0}, {"echo", 1}, {"echo", 2}, {"echo_ind", 0}, {"echo_tail", 0}, {"echo_ind", 3}, {"echo_tail", 3}} {
+				cb := variant.cb
+				if variant.fn == "echo_tail" && c.NoTail {
+					continue
+				}
 				if cb == 1 && ws || cb == 2 && !ws {
 					continue // one callback form per calling form keeps the count down: Call+Call, CallWithStack+CallWithStack
 				}
+				if cb == 3 {
+					if (vi+len(c.P))%2 == 0 {
+						continue
+					}
+					cb = 1
+					if ws {
+						cb = 2
+					}
+				}
 				h.cb = cb
-				what := fmt.Sprintf("vector %d: echo via %s", vi, form(ws))
+				what := fmt.Sprintf("vector %d: %s via %s", vi, variant.fn, form(ws))
 				if cb != 0 {
 					what += " with the host function calling id back"
 				}
-				res, err := call("echo", ws, v.Args, nr)
+				res, err := call(variant.fn, ws, v.Args, nr)
 				h.cb = 0
 				if err != nil {
 					return failf("%s: %s failed: %v", describe(c), what, firstLine(err)), st
@@ -690,6 +721,21 @@ func explainFlags(t byte, fl uint32, c uint64) string {
 	return strings.Join(s, "; ") + fmt.Sprintf(" (constant %#x)", c)
 }
 
+// trimStack keeps the frames below the panic, a few lines.
+func trimStack(b []byte) string {
+	l := strings.Split(string(b), "\n")
+	for i, x := range l {
+		if strings.HasPrefix(x, "panic(") && i+2 < len(l) {
+			l = l[i+2:]
+			break
+		}
+	}
+	if len(l) > 12 {
+		l = l[:12]
+	}
+	return strings.Join(l, "\n")
+}
+
 func firstLine(err error) string { return strings.SplitN(err.Error(), "\n", 2)[0] }
 
 func describe(c Case) string {
@@ -706,8 +752,11 @@ var (
 	probeOnce       sync.Once
 	hasSignExt      = map[string]bool{} // per engine
 	hasSNaN         = map[string]bool{}
+	hasTail7        = map[string]bool{}
 	probeViolations []string
 )
+
+var codeAddr = regexp.MustCompile(`0x7f[0-9a-f]{7,}`)
 
 func isSNaN32(b uint64) bool {
 	return b&0x7f800000 == 0x7f800000 && b&0x007fffff != 0 && b&0x00400000 == 0
@@ -716,30 +765,51 @@ func isSNaN32(b uint64) bool {
 // probes runs the specific inputs of the defects seen on the pinned tree; a reproduced one is
 // reported through evid.Finding and its class is excluded from generation (per engine):
 //   - sign-ext: reflective style, i32 result declared as Go int32, value with bit 31 set;
-//   - snan: reflective style, f32 parameter or result holding a signalling NaN.
+//   - snan: reflective style, f32 parameter or result holding a signalling NaN;
+//   - tail7: return_call of the imported host function with exactly 7 integer-class
+//     (i32/i64/externref) parameters.
 func probes() {
 	probeOnce.Do(func() {
+		// attribute runs the finding's specific input and a control input that differs only in
+		// the property of the class (unsigned Go type / quiet NaN). Only "input fails, control
+		// passes" is attributed to the finding; anything else is an ordinary violation.
+		attribute := func(id, check string, c, control Case, reproduced map[string]bool) {
+			f, _ := runCase(c)
+			if f == nil {
+				return
+			}
+			if fc, _ := runCase(control); fc != nil {
+				evid.Violation(check+"-control", control, "%s", fc.msg)
+				probeViolations = append(probeViolations, fc.msg)
+				return
+			}
+			reproduced[c.Engine] = true
+			msg := codeAddr.ReplaceAllString(f.msg, "0x7f...(an address)") // keep the message (and so the replay file name) stable
+			if evid.Finding(id, check, c, "%s", msg) {
+				probeViolations = append(probeViolations, msg)
+			}
+		}
 		for _, eng := range wz.Engines {
-			c := Case{Engine: eng, Style: "reflect", P: "", R: "i", RGo: "s", Vecs: []Vec{{Args: []uint64{}, Res: []uint64{0xffffffff}}}}
-			if f, _ := runCase(c); f != nil {
-				hasSignExt[eng] = true
-				if evid.Finding(findSignExt, "known-int32-sign-ext", c, "%s", f.msg) {
-					probeViolations = append(probeViolations, f.msg)
-				}
-			}
-			c = Case{Engine: eng, Style: "reflect-ctx", P: "f", R: "f", Vecs: []Vec{{Args: []uint64{0x7fa00000}, Res: []uint64{0xff800001}}}}
-			if f, _ := runCase(c); f != nil {
-				hasSNaN[eng] = true
-				if evid.Finding(findSNaN, "known-f32-snan", c, "%s", f.msg) {
-					probeViolations = append(probeViolations, f.msg)
-				}
-			}
+			attribute(findSignExt, "known-int32-sign-ext",
+				Case{Engine: eng, Style: "reflect", P: "", R: "i", RGo: "s", Vecs: []Vec{{Args: []uint64{}, Res: []uint64{0xffffffff}}}},
+				Case{Engine: eng, Style: "reflect", P: "", R: "i", RGo: "u", Vecs: []Vec{{Args: []uint64{}, Res: []uint64{0xffffffff}}}}, hasSignExt)
+			attribute(findSNaN, "known-f32-snan",
+				Case{Engine: eng, Style: "reflect-ctx", P: "f", R: "f", Vecs: []Vec{{Args: []uint64{0x7fa00000}, Res: []uint64{0xff800001}}}},
+				Case{Engine: eng, Style: "reflect-ctx", P: "f", R: "f", Vecs: []Vec{{Args: []uint64{0x7fe00000}, Res: []uint64{0xffc00001}}}}, hasSNaN)
+			seven := []uint64{0x1000, 0x1001, 0x1002, 0x1003, 0x1004, 0x1005, 0x1006}
+			attribute(findTail7, "known-tailcall-7-int-args",
+				Case{Engine: eng, Style: "gofunc", P: "IIIIIII", R: "", Vecs: []Vec{{Args: seven, Res: []uint64{}}}},
+				Case{Engine: eng, Style: "gofunc", P: "IIIIIII", R: "", NoTail: true, Vecs: []Vec{{Args: seven, Res: []uint64{}}}}, hasTail7)
 		}
 	})
 }
 
 // exclude rewrites values of a generated case that fall in the class of a reproduced finding.
 func exclude(c *Case) {
+	if hasTail7[c.Engine] && count(c.P, "iIx") == 7 {
+		c.NoTail = true
+		evid.Label("excluded-tail-call-with-7-integer-class-params", 1)
+	}
 	if !isReflect(c.Style) {
 		return
 	}
@@ -998,6 +1068,9 @@ func TestKnownFindings(t *testing.T) {
 		if !hasSignExt[eng] {
 			evid.Note("%s does not reproduce on the %s: negative int32 results of reflective host functions are explored there", findSignExt, eng)
 		}
+		if !hasTail7[eng] {
+			evid.Note("%s does not reproduce on the %s: tail calls of the host function with 7 integer-class parameters are explored there", findTail7, eng)
+		}
 		if !hasSNaN[eng] {
 			evid.Note("%s does not reproduce on the %s: f32 signalling NaNs through reflective host functions are explored there", findSNaN, eng)
 		}
@@ -1009,7 +1082,7 @@ func TestBoundary(t *testing.T) {
 		t.Skip()
 	}
 	probes()
-	evid.Check(t, "boundary", evid.Scale(6000, 640000), func(t *rapid.T) {
+	evid.Check(t, "boundary", evid.Scale(8000, 640000), func(t *rapid.T) {
 		c := genCase(t)
 		exclude(&c)
 		evid.Journal(c)
